@@ -104,6 +104,19 @@ class Tracer:
                         out.append(Origin("call", f"component of {ast.unparse(d.value)[:40]}", fi, d.value, chain))
                     else:
                         out += rec(fi, v, d.node)
+                elif d.kind == "for" and isinstance(d.value, ast.Call) and isinstance(d.value.func, ast.Name) and d.value.func.id in ("range", "enumerate") and not d.path:
+                    # a counter: 0, 1, 2, ... whatever the bound is -- the values are constants of the program
+                    out.append(Origin("literal", "0" if d.value.func.id == "range" and len(d.value.args) == 1 else "1", fi, d.stmt, chain))
+                elif d.kind == "aug" and isinstance(d.value, ast.AugAssign) and isinstance(d.value.target, ast.Name) and depth < 6:
+                    # x op= e : whatever x was before, combined with e
+                    out += rec(fi, d.value.value, d.node)
+                    flow_ = flow_of(fi.node)
+                    for dl in flow_.defs_at.values():
+                        for d2 in dl:
+                            if d2.name == d.name and d2.kind == "assign" and d2.value is not None and not d2.path:
+                                out += rec(fi, d2.value, d2.node)
+                            elif d2.name == d.name and d2.kind == "param":
+                                out += self._param_origins(fi, d.name, chain, depth, seen)
                 elif d.kind == "for":
                     out.append(Origin("unknown", f"loop variable {d.name}", fi, d.stmt, chain))
                 else:
